@@ -181,3 +181,15 @@ proofs/ModesProofs.vos proofs/ModesProofs.vok proofs/ModesProofs.required_vos: p
 properties/C18.vo properties/C18.glob properties/C18.v.beautified properties/C18.required_vo: properties/C18.v model/Bytes.vo model/Modes.vo proofs/ModesProofs.vo
 properties/C18.vio: properties/C18.v model/Bytes.vio model/Modes.vio proofs/ModesProofs.vio
 properties/C18.vos properties/C18.vok properties/C18.required_vos: properties/C18.v model/Bytes.vos model/Modes.vos proofs/ModesProofs.vos
+model/Validate.vo model/Validate.glob model/Validate.v.beautified model/Validate.required_vo: model/Validate.v gen/Params.vo model/Bytes.vo model/Crc32c.vo model/Id.vo model/Sha1.vo model/Server.vo
+model/Validate.vio: model/Validate.v gen/Params.vio model/Bytes.vio model/Crc32c.vio model/Id.vio model/Sha1.vio model/Server.vio
+model/Validate.vos model/Validate.vok model/Validate.required_vos: model/Validate.v gen/Params.vos model/Bytes.vos model/Crc32c.vos model/Id.vos model/Sha1.vos model/Server.vos
+model/Check02.vo model/Check02.glob model/Check02.v.beautified model/Check02.required_vo: model/Check02.v gen/Params.vo model/Bytes.vo model/Crc32c.vo model/Id.vo model/Sha1.vo model/Server.vo model/Validate.vo
+model/Check02.vio: model/Check02.v gen/Params.vio model/Bytes.vio model/Crc32c.vio model/Id.vio model/Sha1.vio model/Server.vio model/Validate.vio
+model/Check02.vos model/Check02.vok model/Check02.required_vos: model/Check02.v gen/Params.vos model/Bytes.vos model/Crc32c.vos model/Id.vos model/Sha1.vos model/Server.vos model/Validate.vos
+proofs/ValidateProofs.vo proofs/ValidateProofs.glob proofs/ValidateProofs.v.beautified proofs/ValidateProofs.required_vo: proofs/ValidateProofs.v gen/Params.vo model/Bytes.vo model/Crc32c.vo model/Id.vo model/Sha1.vo model/Server.vo model/Validate.vo
+proofs/ValidateProofs.vio: proofs/ValidateProofs.v gen/Params.vio model/Bytes.vio model/Crc32c.vio model/Id.vio model/Sha1.vio model/Server.vio model/Validate.vio
+proofs/ValidateProofs.vos proofs/ValidateProofs.vok proofs/ValidateProofs.required_vos: proofs/ValidateProofs.v gen/Params.vos model/Bytes.vos model/Crc32c.vos model/Id.vos model/Sha1.vos model/Server.vos model/Validate.vos
+properties/C02.vo properties/C02.glob properties/C02.v.beautified properties/C02.required_vo: properties/C02.v gen/Params.vo model/Bytes.vo model/Crc32c.vo model/Id.vo model/Sha1.vo model/Server.vo model/Validate.vo proofs/ValidateProofs.vo
+properties/C02.vio: properties/C02.v gen/Params.vio model/Bytes.vio model/Crc32c.vio model/Id.vio model/Sha1.vio model/Server.vio model/Validate.vio proofs/ValidateProofs.vio
+properties/C02.vos properties/C02.vok properties/C02.required_vos: properties/C02.v gen/Params.vos model/Bytes.vos model/Crc32c.vos model/Id.vos model/Sha1.vos model/Server.vos model/Validate.vos proofs/ValidateProofs.vos
